@@ -3,7 +3,8 @@ from .common import run_cases
 
 PROP = 'C19'
 RULE = ('case = one ParsedAnsiControlSequenceString(s, allow_empty_terminator, acceptable_terminators) over strings '
-        'of length 0..20 from {ESC, [, digits, ;, ?, space, m, H, J, ~, @, a, e-acute} biased to adjacent sequences, '
+        'of length 0..24 from {ESC, [, digits, ;, ?, space, m, H, J, ~, @, a, e-acute; C0/DEL/C1 characters; non-ASCII '
+        'digit, letter, space and separator look-alikes inside sequence bodies} biased to adjacent sequences, '
         'sequences at start/end and unterminated tails, for allow_empty in {T,F} x acceptable in {None,\'m\',\'mHJ\'}: '
         'formatted_str, str(), repr() and manual re-insertion of .sequences into .unformatted_str must equal s '
         '(every input); tokenisation must equal the reference tokenizer (outside the grey domain).  Helpers: 13 '
@@ -18,6 +19,9 @@ ESC = '\x1b'
 ALPHA = [ESC, ESC + '[', ESC + '[', '[', '1', '2', '0', ';', '?', ' ', 'm', 'm', 'H', 'J', '~', '@', 'a', 'é', 'x',
          ESC + '[m', ESC + '[1;31m', ESC + '[2J', ESC + '[?25h']
 HOSTILE = ['\n', '\x7f', '\x00', 'ÿ', '\x9b']
+# characters which str.isdigit()/isdecimal()/isalpha()/isspace() accept but which are not parameter, intermediate or
+# final bytes: inside ESC [ ... they end the attempt like any other character outside 0x20-0x7e
+LOOKALIKE = ['\u0663', '\uff11', '\u00b2', '\u096a', '\uff4d', '\u00a0', '\u2003', '\uff1b', '\u217f', '\U0001d7d9']
 
 
 def gen_string(rng):
@@ -25,6 +29,11 @@ def gen_string(rng):
     parts = [rng.choice(ALPHA) for _ in range(n)]
     if rng.random() < 0.1:
         parts.insert(rng.randint(0, len(parts)), rng.choice(HOSTILE))
+    if rng.random() < 0.12:
+        # a look-alike where a parameter byte, a separator or the final byte would be
+        c = rng.choice(LOOKALIKE)
+        parts.insert(rng.randint(0, len(parts)), rng.choice([
+            ESC + '[' + c + 'm', ESC + '[1;' + c + 'H', ESC + '[' + c, ESC + '[3' + c + '1m', ESC + '[1' + c + ESC + '[4m', c]))
     if rng.random() < 0.2:
         parts.append(rng.choice([ESC + '[', ESC + '[1', ESC + '[1;3', ESC, ESC + '[?']))
     s = ''.join(parts)
